@@ -133,6 +133,13 @@ class NVSubroutineTranspiler(SubroutineTranspiler):
 
         index_changes = {}  # map index in commands to index in new_commands
 
+        # A register that is only mentioned further down can hold a live value where
+        # a scratch register is needed (loops jump back up): none of them is "unused".
+        for instr in self._subroutine.instructions:
+            for op in instr.operands:
+                if isinstance(op, Register):
+                    self._used_registers.add(op)
+
         for i, instr in enumerate(self._subroutine.instructions):
             # check which registers are being written to
             affected_regs = instr.writes_to()
